@@ -8,14 +8,18 @@ EXTENDS FindActions, TraceLib
 CfgOf(in) == [mode |-> in.cfg.mode, min |-> in.cfg.min, max |-> in.cfg.max,
               depth |-> in.cfg.depth, sorted |-> TRUE, prune |-> {}]
 
+\* "rootdir": find / -maxdepth 0 -exec[dir] CMD {} ; or + - the one entry there is, run once, from the root directory
+RootDir(in) == in.mode = "rootdir"
 InDomain(in, obs) ==
+  RootDir(in) \/
   /\ in.cfg.mode = "P"
   /\ WalkRoots(in.tree, CfgOf(in), in.roots).errs = 0
   /\ (in.execdir => ExecdirDom(in.roots))
 
 Conforms(in, obs) ==
   /\ "panic" \notin DOMAIN obs
-  /\ IF in.mode = "single"
+  /\ IF RootDir(in) THEN obs.nexec = 1 /\ obs.exit = 0 /\ obs.argv = << <<47>> >> /\ (in.execdir => obs.cwd = <<47>>)
+     ELSE IF in.mode = "single"
      THEN LET r == SingleExecRun(in.tree, CfgOf(in), in.roots, in.pre, in.template, in.execdir, in.script, in.nocmd) IN
           /\ obs.execs = r.execs /\ obs.truth = r.truth /\ obs.exit = r.exit
           \* "at that point of the evaluation": on the output the command shares with find, its mark (X) stands between
@@ -26,7 +30,7 @@ Conforms(in, obs) ==
      ELSE /\ MultiExecOK(in.tree, CfgOf(in), in.roots, in.pre, in.fixed, in.execdir, in.script, in.quit, in.two, obs.execs, obs.exit)
           /\ MultiTruthOK(in.tree, CfgOf(in), in.roots, in.pre, in.quit, obs.truthn, IF "truth" \in DOMAIN obs THEN obs.truth ELSE <<>>, "truth" \in DOMAIN obs)
 
-Describe(in) == IF in.mode = "single"
+Describe(in) == IF RootDir(in) THEN [nexec |-> 1] ELSE IF in.mode = "single"
                 THEN SingleExecRun(in.tree, CfgOf(in), in.roots, in.pre, in.template, in.execdir, in.script, in.nocmd)
                 ELSE [reached |-> Paths(Reached(in.tree, CfgOf(in), in.roots, in.pre))]
 Beyond(in) == FALSE
